@@ -25,6 +25,8 @@ func runC11(r *engine.Run) {
 	r.Rule("WHO-dirtyclear", "the dirty flag doubles as 'not saved yet' for Commit, so stores of dirty=false may be reachable only from entry points that save the node (Commit) or that work on freshly decoded nodes (Deserialize, VerifyBlockProof), not from read-only entry points")
 	r.Rule("DOM-unchanged", "in commit every send of a node's previous hash on the deleted channel is reached only when bytes.Equal(previous hash, the node's new Hash()) tested false: a dirty node that hashes as before is the live node and must not be collected")
 	r.Rule("REF-shared", "storage is addressed, and garbage is collected, by node hash; that is sound only if equal content at two positions cannot be one stored node: some node field set by insert must derive from the walk's prefix (a position component in the hashed state). Otherwise deleting or replacing content at one position collects the node another position still uses")
+	r.Rule("FRESH-hashbuf", "see C13: a node's hash buffer is never rewritten in place (the previous hash a commit schedules for deletion and the hash references of collapsed nodes alias it)")
+	r.Rule("FRESH-copy", "see C10: for every node type of the weighted trie whose fields are written after construction (insert updates value nodes in place; Serialize/CalcHash/commit write hash and dirty), no return of Copy or CopyRoot is the receiver itself and no child slot of the copy is filled with the receiver's own child object: a CopyRoot snapshot shares no mutable node with the trie it was taken from (proof generation on a snapshot would otherwise clear the dirty flag of a node the original has not saved yet, and Commit skips it)")
 	r.Rule("ERR-guard", "see C17, applied to the weighted trie: a failed Save, storage read or batch operation is never turned into success")
 	r.Rule("ERR-dropped", "see C17: the error of every trie / storage operation of the weighted trie is looked at (deliberate drops in the rollback paths are listed with reasons)")
 	r.Rule("AGREE-persist", "see C10: every field Serialize writes is read back by DeserializeNode (a reopened trie is rebuilt from exactly what was saved)")
@@ -47,6 +49,8 @@ func runC11(r *engine.Run) {
 	orderWait(r, "ORDER-wait")
 	domCleanFail(r, "DOM-cleanfail")
 	agreePersist(r, "AGREE-persist")
+	freshCopy(r, "FRESH-copy")
+	freshHashBuf(r, "FRESH-hashbuf")
 	domMemo(r, "DOM-memo")
 	agreeDecode(r, "AGREE-decode")
 	errGuard(r, "ERR-guard", "ERR-dropped", funcsOfPkg(r, pkgWMPT), 10)
